@@ -235,6 +235,10 @@ pub fn check_after_aborts(case: &Case, stats: &mut Stats) -> CheckResult {
             stats.class("c20_f5_hidden_dependency_after_abort_cut_a_path");
             return Err(Failure::with_sig(what, "C20-F5/hidden-write-after-aborted-intermediate"));
           }
+          if seen_abort && !matches!(b.kind, BuildKind::TopDown(_) | BuildKind::Probe(_)) && super::build::c20_f6_signature(&run, b, msg) {
+            stats.class("c20_f6_hidden_read_in_bottom_up_after_abort");
+            return Err(Failure::with_sig(what, "C20-F6/hidden-read-in-bottom-up-build-through-aborted-intermediate"));
+          }
           return Err(Failure::new(what));
         }
       }
